@@ -171,6 +171,9 @@ def judge_text(r, tmon, book, addr, text, spec, how, base_out=None):
                 report(r, ID, None, case, e, 'every reference and literal token of the formula reaches the emitted code', monitor='operand-conservation')
         else:
             report(r, ID, None, case, e, 'pieces + whitespace = text', monitor='lexer-conservation')
+    rep = pipeline.refusal_repeatable(out)
+    if rep:
+        report(r, ID, None, case, rep, 'the same Parser refuses the same malformed formula again', monitor='refusal-not-repeatable')
     if out.kind == 'FOREIGN_EXC' and out.phase in ('translate', 'load'):
         report(r, ID, classify(text, out, how), case, out.brief(), 'whole translation or E2PyclParserException', monitor='reject-with-parser-exception')
     # agreement with the reference on the complete text
